@@ -25,56 +25,79 @@ fn is_mask(b: &[u8]) -> bool {
         && b[9] == MASK[9]
 }
 
-/// A scalar argument (String of one symbolic ASCII letter, an integer, a boolean, null) with
-/// a symbolic `is_secret` flag: the output is exactly the mask iff the argument is secret, and
-/// otherwise the GraphQL literal of the value; a secret value never appears.
-pub fn secret_scalar<S: Src>(s: &mut S) {
-    let secret = s.bool();
-    let kind = s.below(4);
-    let ch = s.u8();
-    s.assume(ch >= b'a' && ch <= b'z');
-    let n = s.u8();
-    s.assume(n < 10);
-    let flag = s.bool();
+fn setup(secret: bool) -> (ManuallyDrop<MetaInputValue>, ManuallyDrop<Registry>) {
     let mut meta = MetaInputValue::new("arg", "String");
     meta.is_secret = secret;
-    let meta = ManuallyDrop::new(meta);
-    let reg = ManuallyDrop::new(Registry::default());
-    cover!(secret && kind == 0, "secret string");
-    cover!(!secret && kind == 1, "plain number");
-    // one concrete-kind value per branch (hygiene rule 4)
+    (ManuallyDrop::new(meta), ManuallyDrop::new(Registry::default()))
+}
+
+/// A String argument (one symbolic lowercase letter) with a symbolic `is_secret` flag: the
+/// output is exactly the mask iff the argument is secret, and otherwise the GraphQL literal
+/// of the value; a secret value never appears. (One harness per value kind.)
+pub fn secret_string<S: Src>(s: &mut S) {
+    let secret = s.bool();
+    let ch = s.u8();
+    s.assume(ch >= b'a' && ch <= b'z');
+    let (meta, reg) = setup(secret);
+    cover!(secret, "secret");
+    cover!(!secret, "plain");
+    let v = ManuallyDrop::new(Value::String(unsafe { String::from_utf8_unchecked(vec![ch]) }));
     let mut out = String::new();
-    let r = match kind {
-        0 => {
-            let mut st = String::new();
-            st.push(ch as char);
-            let v = ManuallyDrop::new(Value::String(st));
-            stringify_input_value(&reg, &mut out, Some(&meta), &v)
-        }
-        1 => {
-            let v = ManuallyDrop::new(Value::Number(Number::from(n as u64)));
-            stringify_input_value(&reg, &mut out, Some(&meta), &v)
-        }
-        2 => {
-            let v = ManuallyDrop::new(Value::Boolean(flag));
-            stringify_input_value(&reg, &mut out, Some(&meta), &v)
-        }
-        _ => {
-            let v = ManuallyDrop::new(Value::Null);
-            stringify_input_value(&reg, &mut out, Some(&meta), &v)
-        }
-    };
+    let r = stringify_input_value(&reg, &mut out, Some(&meta), &v);
     assert!(r.is_ok(), "stringify failed");
     let ob = out.as_bytes();
     if secret {
         assert!(is_mask(ob), "a secret argument is not masked");
     } else {
-        match kind {
-            0 => assert!(ob.len() == 3 && ob[0] == b'"' && ob[1] == ch && ob[2] == b'"', "plain string printed as its literal"),
-            1 => assert!(ob.len() == 1 && ob[0] == b'0' + n, "plain number printed as its literal"),
-            2 => assert!(ob.len() == if flag { 4 } else { 5 }, "plain boolean printed as its literal"),
-            _ => assert!(ob.len() == 4, "null printed as its literal"),
-        }
+        assert!(ob.len() == 3 && ob[0] == b'"' && ob[1] == ch && ob[2] == b'"', "plain string printed as its literal");
+    }
+    std::mem::forget(out);
+}
+
+pub fn secret_number<S: Src>(s: &mut S) {
+    let secret = s.bool();
+    let n = s.u8();
+    s.assume(n < 10);
+    let (meta, reg) = setup(secret);
+    cover!(secret, "secret");
+    cover!(!secret, "plain");
+    let v = ManuallyDrop::new(Value::Number(Number::from(n as u64)));
+    let mut out = String::new();
+    let r = stringify_input_value(&reg, &mut out, Some(&meta), &v);
+    assert!(r.is_ok(), "stringify failed");
+    let ob = out.as_bytes();
+    if secret {
+        assert!(is_mask(ob), "a secret argument is not masked");
+    } else {
+        assert!(ob.len() == 1 && ob[0] == b'0' + n, "plain number printed as its literal");
+    }
+    std::mem::forget(out);
+}
+
+pub fn secret_bool_null<S: Src>(s: &mut S) {
+    let secret = s.bool();
+    let flag = s.bool();
+    let (meta, reg) = setup(secret);
+    cover!(secret, "secret");
+    cover!(!secret && flag, "plain true");
+    let v = ManuallyDrop::new(Value::Boolean(flag));
+    let mut out = String::new();
+    let r = stringify_input_value(&reg, &mut out, Some(&meta), &v);
+    assert!(r.is_ok(), "stringify failed");
+    if secret {
+        assert!(is_mask(out.as_bytes()), "a secret argument is not masked");
+    } else {
+        assert!(out.len() == if flag { 4 } else { 5 }, "plain boolean printed as its literal");
+    }
+    std::mem::forget(out);
+    let v = ManuallyDrop::new(Value::Null);
+    let mut out = String::new();
+    let r = stringify_input_value(&reg, &mut out, Some(&meta), &v);
+    assert!(r.is_ok(), "stringify failed");
+    if secret {
+        assert!(is_mask(out.as_bytes()), "a secret null argument is not masked");
+    } else {
+        assert!(out.len() == 4, "null printed as its literal");
     }
     std::mem::forget(out);
 }
@@ -89,8 +112,7 @@ pub fn secret_list<S: Src>(s: &mut S) {
     meta.is_secret = secret;
     let meta = ManuallyDrop::new(meta);
     let reg = ManuallyDrop::new(Registry::default());
-    let mut st = String::new();
-    st.push(ch as char);
+    let st = unsafe { String::from_utf8_unchecked(vec![ch]) };
     let v = ManuallyDrop::new(Value::List(vec![Value::String(st)]));
     let mut out = String::new();
     let r = stringify_input_value(&reg, &mut out, Some(&meta), &v);
@@ -107,6 +129,8 @@ pub fn secret_list<S: Src>(s: &mut S) {
 }
 
 harnesses! {
-    #[kani::unwind(6)] #[kani::stub(std::hash::RandomState::new, crate::stubs::rs_new)] c21_secret_scalar => secret_scalar;
+    #[kani::unwind(6)] #[kani::stub(std::hash::RandomState::new, crate::stubs::rs_new)] c21_secret_string => secret_string;
+    #[kani::unwind(6)] #[kani::stub(std::hash::RandomState::new, crate::stubs::rs_new)] c21_secret_number => secret_number;
+    #[kani::unwind(6)] #[kani::stub(std::hash::RandomState::new, crate::stubs::rs_new)] c21_secret_bool_null => secret_bool_null;
     #[kani::unwind(6)] #[kani::stub(std::hash::RandomState::new, crate::stubs::rs_new)] c21_secret_list => secret_list;
 }
